@@ -828,6 +828,12 @@ func DeleteVirtualTable(tname *string, orgid int64) error {
 		log.Errorf("DeleteVirtualTable : Error writing to vtableFilename=%v, Error=%v", vTableFileName, errW)
 		return errW
 	}
+
+	// forget the name in memory too, otherwise a later ingest into an index of the same
+	// name would not add it back to the file
+	globalTableAccessLock.Lock()
+	delete(allVirtualTables[orgid], *tname)
+	globalTableAccessLock.Unlock()
 	return nil
 }
 
